@@ -60,6 +60,16 @@ def run(ctx):
     ctx.also_props = ("C12",)
     hp = ctx.build_harness("h_par")
     ctx.pipe([hp, "resid", "40" if (translator_failed or ctx.tier != "quick") else "12"], "par", label="residual-race-probe")
+    owner_left = any(b[0].startswith("translator omp_owner.py: parallel regions left") for b in ctx.broken)
+    if owner_left:
+        # a region outside the kernel-dispatch family changed shape (solver.cpp: exact error, norms; transfers; rhs): whole solves at four
+        # threads — a race there shows as a reported figure that differs from its serial recomputation (oracle of C20) or as a
+        # thread-count dependent result (oracle of C12)
+        ctx.also_props = ("C12", "C20")
+        hs = ctx.build_harness("h_solver")
+        ctx.pipe([hs, "solve", "40", "4"], "trace", label="solve-race-probe")
+        ctx.pipe([hp, "solve", "4"], "par", label="solve-thread-count-probe")
+        ctx.also_props = ("C12",)
     if translator_failed or shared_ws:
         ctx.pipe([hp, "ops", "2", "13", "24"], "par", label="operator-race-probe")
         if not ctx.failing:
